@@ -331,20 +331,26 @@ class TaskManager(rpu.ClientComponent):
 
                 self._log.debug('pilot %s is final', pid)
 
+                # NOTE: task state updates arrive in a different thread (see
+                #       `_update_tasks`): check and update the tasks under the
+                #       same lock, otherwise a task can be reported as `DONE`
+                #       and as `FAILED`
                 tasks = list()
-                for task in self._tasks.values():
+                with self._tasks_lock:
 
-                    # only tasks of this pilot which are not yet final
-                    if task.pilot != pid or task.state in rps.FINAL:
-                        continue
+                    for task in self._tasks.values():
 
-                    update = {'uid'             : task.uid,
-                              'exception'       : 'RuntimeError("pilot died")',
-                              'exception_detail': 'pilot %s is final' % pid,
-                              'state'           : rps.FAILED}
+                        # only tasks of this pilot which are not yet final
+                        if task.pilot != pid or task.state in rps.FINAL:
+                            continue
 
-                    task._update(update)
-                    tasks.append(task.as_dict())
+                        update = {'uid'             : task.uid,
+                                  'exception'       : 'RuntimeError("pilot died")',
+                                  'exception_detail': 'pilot %s is final' % pid,
+                                  'state'           : rps.FAILED}
+
+                        task._update(update)
+                        tasks.append(task.as_dict())
 
                 # final tasks are not pushed
                 self.advance(tasks, publish=True, push=False)
